@@ -3076,10 +3076,26 @@ impl Value {
                     ))
                 })?,
             );
-            if day_delta > 0.0 {
-                dt += Duration::from_secs_f64(day_delta * 86400.0);
-            } else if day_delta < 0.0 {
-                dt -= Duration::from_secs_f64(day_delta.abs() * 86400.0);
+            if day_delta != 0.0 && !day_delta.is_nan() {
+                // The days beyond the 28th or before the 1st are added to the date,
+                // which may leave the range of representable dates
+                dt = Duration::try_from_secs_f64(day_delta.abs() * 86400.0)
+                    .ok()
+                    .and_then(|dur| time::Duration::try_from(dur).ok())
+                    .and_then(|dur| {
+                        if day_delta > 0.0 {
+                            dt.checked_add(dur)
+                        } else {
+                            dt.checked_sub(dur)
+                        }
+                    })
+                    .ok_or_else(|| {
+                        env.error(format!(
+                            "Date out of range: the day is too many days \
+                            {} {year:04}-{month:02}-{day:02}",
+                            if day_delta > 0.0 { "after" } else { "before" }
+                        ))
+                    })?;
             }
             Ok(dt.unix_timestamp() as f64 + frac)
         };
